@@ -1,7 +1,12 @@
 package kafka
 
 import (
+	"context"
 	"io"
+	"net"
+	"time"
+
+	pfindcoordinator "github.com/segmentio/kafka-go/protocol/findcoordinator"
 )
 
 // C06: a response is only ever delivered to the call that sent the request.
@@ -53,4 +58,95 @@ func VH_C06_WaitResponse(inflight int) {
 		vhReach("c06-foreign-response")
 	}
 	vhAssert(c.inflight == int32(inflight)-1, "inflight-decremented-once")
+}
+
+// H2: Batch.Read with a buffer that is too small (io.ErrShortBuffer keeps the connection), Close, then another
+// operation: the rest of the fetch response must have been drained, the next call gets its own response.
+func VH_C06_ShortBufferThenNext(version int) {
+	vhConcreteClock(true)
+	want := vhInt64("last_offset")
+	f1 := vhApiVersionsFrame(1, []vhApiRange{{int16(fetch), 0, int16(version)}, {int16(listOffsets), 0, 1}})
+	set := append(vhEncMessage(0, 1, 0, 1000, nil, vhBytes("value", 3)), vhEncMessage(1, 1, 0, 1000, nil, vhBytes("value2", 3))...)
+	f2 := vhFetchResponse(2, version, 0, "t", 0, 0, 10, set)
+	f3 := vhListOffsetsFrame(3, "t", 0, 0, -1, want)
+	fc := &vhFakeConn{data: append(append(append([]byte{}, f1...), f2...), f3...)}
+	c := NewConnWith(fc, ConnConfig{Topic: "t", Partition: 0, ClientID: "vh"})
+	c.Seek(0, SeekAbsolute|SeekDontCheck)
+	b := c.ReadBatchWith(ReadBatchConfig{MinBytes: 1, MaxBytes: 1000})
+	small := make([]byte, 1)
+	_, rerr := b.Read(small)
+	vhAssert(rerr == io.ErrShortBuffer, "short-buffer-reported")
+	b.Close()
+	vhAssert(!fc.closed, "short-buffer-keeps-the-connection")
+	vhAssert(fc.off-c.rbuf.Buffered() == len(f1)+len(f2), "rest-of-the-fetch-response-drained-on-close")
+	off, err := c.ReadLastOffset()
+	vhAssert(err == nil && off == want, "next-call-gets-its-own-response")
+	vhReach("c06-short-buffer")
+}
+
+// H3 (level S): an abandoned exchange on a Transport connection. Call A's context ends after its request was
+// handed to a connection; call B follows; the broker answers A's request first. B must get its own answer.
+func VH_C06_TransportAbandoned() {
+	vhConcreteClock(true)
+	dials := 0
+	mkConn := func(node int32) *vhFakeConn {
+		w := &vhW{}
+		w.i16(0)
+		w.i32(node)
+		w.str("h")
+		w.i32(9092)
+		f1 := vhApiVersionsFrame(1, []vhApiRange{{10, 0, 0}, {3, 0, 1}})
+		return &vhFakeConn{data: append(f1, vhFrameOf(2, w.b)...)}
+	}
+	conns := []*vhFakeConn{mkConn(100), mkConn(200)}
+	ready := make(event)
+	close(ready)
+	p := &connPool{
+		dial: func(ctx context.Context, network, address string) (net.Conn, error) {
+			c := conns[dials]
+			dials++
+			return c, nil
+		},
+		dialTimeout: time.Second, idleTimeout: time.Minute, clientID: "vh",
+		ready: ready, wake: make(chan event), conns: make(map[int32]*connGroup),
+	}
+	p.ctrl = p.newConnGroup(&networkAddress{network: "tcp", address: "bootstrap:9092"})
+	p.setState(connPoolState{})
+
+	ctxA, cancelA := context.WithCancel(context.Background())
+	var resA, resB Response
+	var errA, errB error
+	doneA, doneB := false, false
+	go func() {
+		resA, errA = p.roundTrip(ctxA, &pfindcoordinator.Request{Key: "A"})
+		doneA = true
+	}()
+	// A dials, hands its request to connection 1 and waits; the connection's loop has not run yet
+	vhRunNamed("VH_C06_TransportAbandoned$", 0)
+	vhRunNamed("grabConnOrConnect$", 0)
+	vhRunNamed("VH_C06_TransportAbandoned$", 0)
+	vhAssert(!doneA, "call-A-waits-for-its-response")
+	cancelA()
+	vhRunNamed("VH_C06_TransportAbandoned$", 0)
+	vhAssert(doneA && errA != nil && resA == nil, "abandoned-call-returns-its-context-error")
+	go func() {
+		resB, errB = p.roundTrip(context.Background(), &pfindcoordinator.Request{Key: "B"})
+		doneB = true
+	}()
+	vhRunNamed("VH_C06_TransportAbandoned$", 0)
+	vhRunNamed("grabConnOrConnect$", 0)
+	vhRunNamed("VH_C06_TransportAbandoned$", 0)
+	// the broker answers A's abandoned request first, then B's
+	vhRunNamed(").run", 0)
+	vhRunNamed(").run", 1)
+	vhRunAll()
+	vhRunAll()
+	vhAssert(doneB, "call-B-completes")
+	if doneB {
+		vhAssert(errB == nil, "call-B-succeeds")
+		if errB == nil {
+			vhAssert(resB.(*pfindcoordinator.Response).NodeID == 200, "call-B-gets-its-own-response-not-the-abandoned-one")
+		}
+	}
+	vhReach("c06-transport-abandoned")
 }
